@@ -416,6 +416,20 @@ pub fn drive(vectors: &str, seed: u64, out: &str, thorough: bool) {
       run_cases.push((format!("c08-run{ri}-{k}"), *li, *p, *r, text));
     }
   }
+  // a pattern may leave trailing children of the matched node unmatched - named ones too (an else branch, a trailing
+  // argument list): the edit ends where the pattern's match ends, in every front end
+  let tails: Vec<(usize, &str, &str, &str)> = vec![
+    (0, "if ($A) $B", "if (!!$A) $B", "if (a) b(); else c();\nif (d) e();\n"),
+    (1, "if ($A) $B", "if (!!$A) $B", "if (a) { b(); } else if (c) { d(); } else { e(); }\n"),
+    (6, "if ($A) $B", "if (!$A) $B", "void m() {\nif (a) b(); else c();\n}\n"),
+    (5, "if ($A) $B", "if (!$A) $B", "class A { void m() {\nif (a) b(); else c();\n} }\n"),
+    (2, "if $A: $B", "if not $A: $B", "if a:\n    b()\nelse:\n    c()\n"),
+    (3, "if $A { $$$B }", "if !$A { $$$B }", "fn main() {\nif a { b(); } else { c(); }\n}\n"),
+    (0, "try { $$$A }", "try { g(); $$$A }", "try { f(); } catch (e) { h(); } finally { k(); }\n"),
+  ];
+  for (ti, (li, p, r, t)) in tails.iter().enumerate() {
+    run_cases.push((format!("c08-tail{ti}"), *li, *p, *r, t.to_string()));
+  }
   recs.extend(cli::par_map(&run_cases, 8, |_, (id, li, p, r, t)| run_record(id, *li, p, r, t, &scratch)));
   let mut skipped = 0;
   for r in &recs {
